@@ -140,7 +140,13 @@ static std::unique_ptr<Oomd::Config2::IR::Root> parseConfig(
   std::stringstream buf;
   buf << conf_file.rdbuf();
   Oomd::Config2::JsonConfigParser json_parser;
-  auto ir = json_parser.parse(buf.str());
+  std::unique_ptr<Oomd::Config2::IR::Root> ir;
+  try {
+    // throws on malformed JSON and on values of the wrong JSON type
+    ir = json_parser.parse(buf.str());
+  } catch (const std::exception& e) {
+    std::cerr << "Caught: " << e.what() << std::endl;
+  }
   if (!ir) {
     std::cerr << "Could not parse conf_file=" << flag_conf_file << std::endl;
     return nullptr;
